@@ -407,7 +407,13 @@ func c10(c *ctx) {
 					return &memConnRW{pc}, nil
 				}
 				d.TLSClient = func(conn net.Conn, hostname string) net.Conn { tlsHost = hostname; return conn }
-				_, _, _, err := d.Dial(context.Background(), dc.url)
+				// WrapConn (every second dial): all handshake I/O and the returned conn go through the wrapper
+				var wrapped *countConn
+				if rep == 1 {
+					d.WrapConn = func(c net.Conn) net.Conn { wrapped = &countConn{Conn: c}; return wrapped }
+				}
+				got, _, _, err := d.Dial(context.Background(), dc.url)
+				wrapOK := rep != 1 || (wrapped != nil && got == net.Conn(wrapped) && wrapped.written == pc.req.Len() && wrapped.read > 0)
 				h := parseHead(pc.req.Bytes())
 				parts := strings.SplitN(h.Line, " ", 3)
 				for len(parts) < 3 {
@@ -436,7 +442,7 @@ func c10(c *ctx) {
 					"wsversion": h.first("Sec-WebSocket-Version"), "keyIs16Bytes": kerr == nil && len(kb) == 16 && len(h.get("Sec-WebSocket-Key")) == 1,
 					"keyFresh": kv != prevKey, "protocols": protos, "exts": exts,
 					"extraHeader": h.first("X-Client") == "verif" && h.first("Origin") == "http://o.example",
-					"dialAddr":    addr, "tlsHost": tlsHost, "crlfOnly": !bytes.Contains(bytes.ReplaceAll(pc.req.Bytes(), []byte("\r\n"), nil), []byte("\n")), "err": fmt.Sprint(err)}
+					"wrapOK":      wrapOK, "dialAddr": addr, "tlsHost": tlsHost, "crlfOnly": !bytes.Contains(bytes.ReplaceAll(pc.req.Bytes(), []byte("\r\n"), nil), []byte("\n")), "err": fmt.Sprint(err)}
 				prevKey = kv
 				out.Emit(map[string]interface{}{"k": "req", "key": key, "url": dc.url, "wantURI": dc.uri, "wantHost": dc.host, "wantAddr": dc.addr, "wantTLSHost": dc.tls,
 					"wantProtocols": wantProtos, "wantExts": wantExts, "wantExtraHeader": wantExtra, "obs": o}, true)
@@ -451,6 +457,18 @@ func c10(c *ctx) {
 	meta.Files = map[string][]string{"records": out.Files}
 	meta.Write(c.dir)
 }
+
+type countConn struct {
+	net.Conn
+	written, read int
+}
+
+func (c *countConn) Write(p []byte) (int, error) {
+	n, err := c.Conn.Write(p)
+	c.written += n
+	return n, err
+}
+func (c *countConn) Read(p []byte) (int, error) { n, err := c.Conn.Read(p); c.read += n; return n, err }
 
 // memConnRW adapts a peerConn to net.Conn.
 type memConnRW struct{ p *peerConn }
